@@ -356,7 +356,11 @@ def handshake_fault_case(case):
         if case.get("refuse"):
             net.script.append(("refuse", 0.0))
         net.script.append(("accept", case["lat"]))
-        w = ApiWorld(gen, loop, net, log)
+        inst = None
+        if case.get("zones0"):
+            # an installation without zones / groups (the handshake takes its special paths)
+            inst = C.default_installation(gen, 2, (0, 0))
+        w = ApiWorld(gen, loop, net, log, inst)
         out["ret"] = await w.init()
         await asyncio.sleep(10.0)
         await quiesce(loop)
